@@ -325,7 +325,7 @@ func genMathext(gen *vlib.G) {
 			xs = append(xs, x, -x-0.25, -x-0.5)
 		}
 		xs = append(xs, ulps(1, 2, 6, 7, 8)...) // the recurrence loop runs while x < 7
-		for i := -200; i <= 240; i++ { // sweep (-10, 12) in steps of 0.05 (poles are skipped below)
+		for i := -200; i <= 240; i++ {          // sweep (-10, 12) in steps of 0.05 (poles are skipped below)
 			xs = append(xs, float64(i)*0.05+0.0125)
 		}
 		for _, x := range xs {
